@@ -377,6 +377,57 @@ def same_day_weights(R, rep):
     # lots are debited in proportion to the same weight
     rep.ob("R4", f"{b.short}:debits-lots", True, "and the lots are debited inside the same function (or its helpers)", b.loc(),
            key="R4:same-day:debit")
+    pro_rata_debits(R, rep, "R4", b)
+
+
+def pro_rata_debits(R, rep, rule="R4", b=None):
+    """the same-day leg is priced at the day's AVERAGE cost, so the shares must leave the day's lots pro rata: every lot is debited
+    `its availability × one ratio` with the ratio fixed before the loop over the lots. A factor that changes while the lots are walked
+    (`available × (remaining ÷ total)` with `remaining` counted down in the loop) takes more from the first lots than from the last:
+    the leg keeps the average, what stays in each lot is later pooled at that lot's own unit cost, and the pool's cost then depends on
+    the order in which the day's purchases were written (seeded change C06-s10)."""
+    F = R.F
+    if b is None:
+        sd = R.leg("SameDay")[0]
+        debit_fns = {w[0].parent or w[0].id for w in R.field_writes(LOT, "consumed") if w[2] != "construct"}
+        cs = [F.bodies[t["callee"]] for _, t in sd.calls() if t["callee"] in F.bodies and "Decimal" in F.bodies[t["callee"]].ret
+              and t["callee"].startswith("cgt_core::matcher::acquisition_ledger::AcquisitionLedger::")
+              and (t["callee"] in debit_fns or any(c in debit_fns for c in F.callgraph().get(t["callee"], ())))]
+        if len(cs) != 1:
+            rep.unresolved(rule, "SAMEDAY-CONSUME", f"{len(cs)} ledger methods consume lots and return a cost for the same-day rule")
+            return
+        b = cs[0]
+    tb = R.terms(b, 0)
+    debit = {w[0].parent or w[0].id for w in R.field_writes(LOT, "consumed") if w[2] != "construct"}
+    n = 0
+    for i, t in b.calls():
+        if t["callee"] not in debit or len(t["args"]) < 2:
+            continue
+        loops = [(h, bl) for h, bl in b.loops() if i in bl]
+        if not loops:
+            continue
+        h, bl = min(loops, key=lambda x: len(x[1]))
+        stepped = set()
+        for j, u in b.calls():
+            if j in bl and is_decimal_arith_assign(u["callee"]) and u["args"]:
+                r = root_of_operand(b, u["args"][0])
+                if r and not r[1] and b.local_name(r[0]):
+                    stepped.add(b.local_name(r[0]))
+        term = tb.operand(t["args"][1])
+        bad = []
+        for x in subterms(term):
+            if isinstance(x, tuple) and x and x[0] == "*":
+                for f in x[1]:
+                    names = {y[1] for y in subterms(f) if isinstance(y, tuple) and y and y[0] == "var"} & stepped
+                    if names:
+                        bad.append((show(x)[:90], sorted(names)))
+        n += 1
+        rep.ob(rule, f"{b.short}:pro-rata-debit", not bad, "each lot is debited its availability × a ratio fixed before the lots are walked" if not bad else
+               f"a lot is debited {bad[0][0]}: the factor {bad[0][1]} is counted down inside the loop over the day's lots, so the lots are depleted unevenly "
+               "while the leg is priced at the day's average — the cost left in the pool depends on the order of the day's purchases",
+               b.loc(t["sp"]), key=f"{rule}:same-day:debit-not-pro-rata")
+    if n < 1:
+        rep.unresolved(rule, "same-day-debit", f"no debit of a lot inside a loop found in {b.short}")
 
 
 def run(ctx, rep):
